@@ -593,7 +593,7 @@ def seqops_case(ctx: Ctx, batch: Batch | None, eqs, ops, kind):
     segs = [text]
     ctx.evaluations += 1
     ctx.count("seqops:cases")
-    for op in ops:
+    for k_op, op in enumerate(ops):
         before = list(state)
         ctx.count(f"seqops:op:{op[0]}")
         if op[0] == "r":
@@ -635,7 +635,7 @@ def seqops_case(ctx: Ctx, batch: Batch | None, eqs, ops, kind):
                     ctx.fail("sequentialize", case, f"after {ops}: sequentialize() raised but the equations moved from {before} to {state}")
                 elif seq_order_exists(cur):
                     ctx.fail("sequentialize", case, f"after {ops}: sequentialize() raised although a valid order of the equations exists")
-            if any(o[0] == "r" for o in ops[: ops.index(op)]) and before != list(range(n)):
+            if any(o[0] == "r" for o in ops[:k_op]) and before != list(range(n)):
                 ctx.count("seqops:sequentialize-after-reorder")
         if -1 in state:
             break
@@ -697,8 +697,8 @@ def sim_case(ctx: Ctx, batch: Batch | None, case):
     try:
         m = ir.Simultaneous.from_string(src, flat=case["flat"])
         hb = m.split_into_blocks(None)
-        eq_idx = {e.human: i for i, e in enumerate(m.get_steady_equation_objects())}
-        got = [(tuple(sorted(eq_idx[h] for h in b.equations)), tuple(sorted(int(q[1:]) for q in b.quantities))) for b in hb]
+        # equation index read off the unique constant that ends every generated equation, not off a getter of the model
+        got = [(tuple(sorted(int(_TAG.search(h).group(1)) - 1 for h in b.equations)), tuple(sorted(int(q[1:]) for q in b.quantities))) for b in hb]
     except Exception as e:
         ctx.disagree("split-into-blocks", case, f"raised {e!r}", "blocks expected")
         if has_pm(im):
@@ -725,6 +725,156 @@ def run_sim(ctx: Ctx, oracle_only=False, scale=1):
 
 
 # ---------------------------------------------------------------------------------------
+# Simultaneous.split_into_blocks on fuller models: measurement equations, parameters, !steady-autovalues, steady plans.
+# Everything the oracle uses (which equations are solved, which names are unknown, who involves whom) is read off the
+# generated model description here, never from a getter of the implementation.
+# ---------------------------------------------------------------------------------------
+
+import re as _re
+_TAG = _re.compile(r"\+(\d+)\.25$")
+
+
+def gen_simw(rng):
+    nt = rng.randint(2, 7)
+    nm = rng.randint(0, 2)
+    npar = rng.randint(1, 3)
+    nauto = rng.randint(1, 2) if rng.chance(0.6) else 0
+    nswap = rng.randint(1, min(2, npar, nt)) if rng.chance(0.4) else 0
+    exo = sorted(rng.sample(range(nt), nswap))           # transition variables exogenized by the steady plan
+    endo = sorted(rng.sample(range(npar), nswap))        # parameters endogenized instead
+    kind = rng.choice(["block", "triangular", "sparse-perm", "dense", "banded"])
+    T = gen_matrix(rng, kind, nt)                          # transition equations x transition unknowns (has a perfect matching)
+    M = rand_bool(rng, (nm, nt), 0.4) if nm else np.zeros((0, nt), dtype=bool)
+    Y = (rand_bool(rng, (nm, nm), 0.3) | perm_matrix(rng, nm)) if nm else np.zeros((0, 0), dtype=bool)
+    if nm == 2 and rng.chance(0.5):
+        Y = np.tril(Y) | np.eye(2, dtype=bool)
+    case = {
+        "kind": "simw", "nt": nt, "nm": nm, "npar": npar, "nauto": nauto, "exo": exo, "endo": endo, "tag": kind,
+        "T": bits_of(T), "M": bits_of(M), "Y": bits_of(Y), "flat": bool(rng.chance(0.5)),
+        "shifts": [[rng.choice([0, 0, -1, 1, -2]) for _ in range(nt)] for _ in range(nt + nm)],
+        # known quantities mentioned on top of the pattern: exogenized variables, parameters that stay parameters
+        "extra_exo": [[bool(rng.chance(0.4)) for _ in exo] for _ in range(nt + nm)],
+        "extra_par": [[bool(rng.chance(0.3)) for _ in range(npar)] for _ in range(nt)],
+        "nonlinear": [bool(rng.chance(0.4)) for _ in range(nt)],
+        "auto": [[bool(rng.chance(0.5)) for _ in range(nt)] for _ in range(nauto)],
+    }
+    return case
+
+
+def simw_layout(case):
+    """unknown names in the column order of the pattern, the pattern itself, the source text"""
+    nt, nm, npar, nauto = case["nt"], case["nm"], case["npar"], case["nauto"]
+    unb = lambda b, shape: np.array([ch == "1" for ch in (b if b != "-" else "")], dtype=bool).reshape(shape)
+    T, M, Y = unb(case["T"], (nt, nt)), unb(case["M"], (nm, nt)), unb(case["Y"], (nm, nm))
+    exo, endo = case["exo"], case["endo"]
+    tcols = [f"t{j}" for j in range(nt) if j not in exo] + [f"p{j}" for j in endo]     # transition-block unknowns, qid order
+    unknowns = [n for n in tcols if n[0] == "t"] + [f"y{j}" for j in range(nm)] + [n for n in tcols if n[0] == "p"]
+    col = {name: k for k, name in enumerate(unknowns)}
+    im = np.zeros((nt + nm, nt + nm), dtype=bool)
+    shifted = lambda name, s: name + ("" if s == 0 or name[0] != "t" else "[%+d]" % s)
+    teqs, meqs = [], []
+    for i in range(nt + nm):
+        terms = []
+        row = T[i] if i < nt else M[i - nt]
+        for j in range(nt):
+            if row[j]:
+                name = tcols[j]
+                im[i, col[name]] = True
+                coef = f"0.{1 + (i + j) % 8}"
+                if i < nt and case["nonlinear"][i] and name[0] == "t" and not terms:
+                    terms.append(f"{coef}*{name}*{name}")
+                else:
+                    terms.append(f"{coef}*{shifted(name, case['shifts'][i][j])}")
+        if i >= nt:
+            for j in range(nm):
+                if Y[i - nt, j]:
+                    im[i, col[f"y{j}"]] = True
+                    terms.append(f"0.{2 + j}*y{j}")
+        for k, j in enumerate(exo):
+            if case["extra_exo"][i][k]:
+                terms.append(f"0.3*t{j}")
+        if i < nt:
+            for j in range(npar):
+                if j not in endo and case["extra_par"][i][j]:
+                    terms.append(f"p{j}")
+        (teqs if i < nt else meqs).append("  0 = " + " + ".join(terms + [f"{i + 1}.25"]) + ";")
+    aeqs = []
+    for k in range(nauto):
+        terms = [f"t{j}" for j in range(nt) if case["auto"][k][j]] or ["t0"]
+        aeqs.append(f"  s{k} = " + " + ".join(terms + [f"{nt + nm + k + 1}.25"]) + ";")
+    lines = ["!transition-variables", "  " + ", ".join(f"t{j}" for j in range(nt)),
+             "!parameters", "  " + ", ".join([f"p{j}" for j in range(npar)] + [f"s{k}" for k in range(nauto)]),
+             "!transition-equations"] + teqs
+    if nm:
+        lines += ["!measurement-variables", "  " + ", ".join(f"y{j}" for j in range(nm)), "!measurement-equations"] + meqs
+    if nauto:
+        lines += ["!steady-autovalues"] + aeqs
+    return unknowns, im, "\n".join(lines) + "\n"
+
+
+def simw_case(ctx: Ctx, batch: Batch | None, case):
+    unknowns, im, src = simw_layout(case)
+    n = len(unknowns)
+    ctx.evaluations += 1
+    ctx.count("simw:cases")
+    for key in ("nm", "nauto"):
+        if case[key]:
+            ctx.count(f"simw:with-{key}")
+    if case["exo"]:
+        ctx.count("simw:with-steady-plan")
+    try:
+        m = ir.Simultaneous.from_string(src, flat=case["flat"])
+        plan = None
+        if case["exo"]:
+            plan = ir.SteadyPlan(m)
+            plan.exogenize(tuple(f"t{j}" for j in case["exo"]))
+            plan.endogenize(tuple(f"p{j}" for j in case["endo"]))
+        hb = m.split_into_blocks(plan)
+        got_names = [(tuple(b.equations), tuple(b.quantities)) for b in hb]
+    except Exception as e:
+        ctx.disagree("split-into-blocks-full-models", case, f"raised {e!r}", "blocks expected")
+        ctx.fail("split-into-blocks", case, f"split_into_blocks raised {e!r} on a model whose solved steady system is square with a perfect matching")
+        return
+    # (i) by name: the blocks must hold exactly the solved (transition + measurement) equations and exactly the unknowns
+    col = {name: k for k, name in enumerate(unknowns)}
+    blocks, bad = [], None
+    for eqs_h, qs in got_names:
+        rows = []
+        for h in eqs_h:
+            t = _TAG.search(h)
+            r = int(t.group(1)) - 1 if t else -1
+            if not (0 <= r < n):
+                bad = bad or f"(i) block contains the equation '{h}', which is not one of the {n} transition/measurement equations being solved"
+            rows.append(r)
+        for q in qs:
+            if q not in col:
+                bad = bad or f"(i) block contains the quantity '{q}', which is not one of the unknowns {unknowns}"
+        blocks.append(_B(sorted(rows), sorted(col.get(q, -1) for q in qs)))
+    if bad:
+        ctx.fail("split-into-blocks", case, bad + f"; blocks: {got_names}")
+        return
+    if not has_pm(im):
+        raise AssertionError("generated steady pattern has no perfect matching")
+    oracle_blocks(ctx, "split-into-blocks", case, im, list(range(n)), list(range(n)), blocks, None)
+    ctx.nontriv(("simw", n, case["nm"], case["nauto"], len(case["exo"]), tuple(sorted(len(b.eids) for b in blocks if len(b.eids) > 1))))
+    # correspondence: split_into_blocks = blaze on the pattern of the solved equations x unknowns (rows: transition then measurement
+    # equations in source order; columns: unknowns by qid, i.e. variables in declaration order, then endogenized parameters)
+    req, reply, _, problems, pre = impl_blaze(im, list(range(n)), list(range(n)))
+    got_text = "".join("[" + csv(b.eids) + "/" + csv(b.qids) + "]" for b in blocks)
+    if batch is not None:
+        batch.add(case, req, reply.split(";B=")[0] + ";B=" + got_text)
+
+
+def run_simw(ctx: Ctx, oracle_only=False, scale=1):
+    rng = ctx.rng.fork("simw")
+    b = None if oracle_only else Batch(ctx, "split-into-blocks-full-models")
+    for _ in range(ctx.n(60, 800) * scale):
+        simw_case(ctx, b, gen_simw(rng.fork("case")))
+    if b is not None:
+        b.flush()
+
+
+# ---------------------------------------------------------------------------------------
 # corpus / entry points
 # ---------------------------------------------------------------------------------------
 
@@ -740,6 +890,11 @@ def replay_case(ctx: Ctx, case, batches):
         seq_case(ctx, batches.get("seq"), eqs, case.get("tag", "dag"))
     elif kind == "sim":
         sim_case(ctx, batches.get("sim"), case)
+    elif kind == "simw":
+        simw_case(ctx, batches.get("sim"), case)
+    elif kind == "seqops":
+        eqs = [(e[0], e[1], e[2], e[3]) for e in case["eqs"]]
+        seqops_case(ctx, batches.get("seq"), eqs, case["ops"], case.get("tag", "dag"))
 
 
 def run_corpus(ctx: Ctx):
@@ -765,14 +920,16 @@ def run(ctx: Ctx):
     run_hpm(ctx)
     run_blaze(ctx)
     run_seq(ctx)
+    run_seqops(ctx)
     run_sim(ctx)
+    run_simw(ctx)
     ctx.exhaustive = True   # the small scope (all matrices up to exhaustive_n_max) is enumerated completely; larger sizes are sampled
 
 
 def search(ctx: Ctx, seeds):
     """failing-input search on the real code when a tie broke: the oracles alone, disagreements first, bigger budget"""
     for c in seeds:
-        if isinstance(c, dict) and c.get("kind") in ("blaze", "seq", "sim"):
+        if isinstance(c, dict) and c.get("kind") in ("blaze", "seq", "sim", "simw", "seqops"):
             try:
                 replay_case(ctx, c, {})
             except Exception:
@@ -780,7 +937,9 @@ def search(ctx: Ctx, seeds):
     ctx.tier = "quick"
     run_blaze(ctx, oracle_only=True, scale=4)
     run_seq(ctx, oracle_only=True, scale=6)
+    run_seqops(ctx, oracle_only=True, scale=4)
     run_sim(ctx, oracle_only=True, scale=3)
+    run_simw(ctx, oracle_only=True, scale=3)
 
 
 def replay(ctx: Ctx, payload):
